@@ -48,6 +48,20 @@ def sum (x : List α) : α := lsum x
 /-- `np.broadcast_to(s, (n,))` of a scalar -/
 def bcast (s : α) (n : Nat) : List α := List.replicate n s
 
+def interpGo (x : α) (x0 y0 : α) : List α → List α → α
+  | x1 :: xs, y1 :: ys =>
+    if x < x1 then (if x ≤ x0 then y0 else (y1 - y0) / (x1 - x0) * (x - x0) + y0)
+    else interpGo x x1 y1 xs ys
+  | _, _ => y0
+
+/-- `np.interp(x, xs, ys)` for an ascending table `xs` (clamped outside the table) -/
+def interp (x : α) : List α → List α → α
+  | x0 :: xs, y0 :: ys =>
+    if x < x0 then y0
+    else if x0 ≤ x then interpGo x x0 y0 xs ys
+    else x   -- unreachable in a total order; on Float this is numpy's NaN pass-through
+  | _, _ => Lit.dec 0 0
+
 /-- the terms `d * (y[k+1] + y[k]) / 2` of `scipy.integrate.cumulative_trapezoid(y, dx=d)`, `d` an array -/
 def trapTerms : List α → List α → List α
   | y0 :: y1 :: ys, d :: ds => ((d * (y1 + y0)) / (Lit.dec 2 0 : α)) :: trapTerms (y1 :: ys) ds
